@@ -167,6 +167,17 @@ def gen_cases(ctx):
             for j in range(per):
                 add(ea[(ci * per + j) % len(ea)], (ci + j) % 2 == 0)
             add(na[ci % len(na)], ci % 3 == 0)
+    # back-pressure: the write stream is a rendezvous and the peer is busy for a while right after answering, so the
+    # initialized notification cannot be handed over at once (busy shorter and longer than the call's timeout)
+    bp = 0
+    for ci, (sup, pref) in enumerate(cfgs):
+        if not sup or (ci % 7 and not full):
+            continue
+        for ans in va[:3] if full else va[ci % len(va):ci % len(va) + 1]:
+            for tmo, busy in ((0.3, 1.0), (2.0, 0.5), (1.0, 3.0)):
+                cases.append({"supported": sup, "preferred": pref, "answer": ans, "noise": [], "tracked": bool(bp % 2),
+                              "timeout": tmo, "backpressure": busy})
+                bp += 1
     # degenerate probes: the empty string as preferred / member (outside the property's universe; correspondence only)
     for sup, pref, ans in ((["2025-06-18", ""], "", {"kind": "version", "value": ""}),
                            (["", "2025-06-18"], "", {"kind": "version", "value": "2025-06-18"}),
